@@ -511,8 +511,11 @@ def install_shims():
         h = CUR
         if h is not None:
             with HLOCK:
+                import traceback
+                tb = traceback.extract_tb(args.exc_traceback)[-4:]
                 h.thread_exc.append({"thread": getattr(args.thread, "name", "?"),
-                                     "type": args.exc_type.__name__, "value": repr(args.exc_value)[:300]})
+                                     "type": args.exc_type.__name__, "value": repr(args.exc_value)[:300],
+                                     "where": [f"{f.filename.rsplit('/', 1)[-1]}:{f.name}:{f.lineno}" for f in tb]})
         else:
             orig_hook(args)
 
@@ -551,6 +554,7 @@ class Harness:
         self.busy: dict[int, real_threading.Thread] = {}
         self.parked_in_get = 0
         self.request_threads: list[SThread] = []
+        self.blocked_ok: set = set()     # request threads a handler script blocks on purpose
         self.sockets: list[ShimSocket] = []
         self.listeners: list[ShimSocket] = []
         self.outbound_peers: list[ScriptedPeer] = []
@@ -699,8 +703,6 @@ class Harness:
                 if th.is_alive() and th not in self.blocked_ok:
                     return False
         return True
-
-    blocked_ok: set = set()
 
     def wait_workers_idle(self, timeout=None):
         end = real_time.time() + (timeout or self.watchdog)
